@@ -533,6 +533,8 @@ class Bits:
             raise bitstring.CreationError(f"Can't create bitstring of negative length {length}.")
 
         if isinstance(s, io.BytesIO):
+            if offset > s.seek(0, 2) * 8:
+                raise bitstring.CreationError(f"The offset of {offset} bits is greater than the length of the BytesIO object ({s.seek(0, 2) * 8} bits).")
             if length is None:
                 length = s.seek(0, 2) * 8 - offset
             byteoffset, offset = divmod(offset, 8)
@@ -568,9 +570,9 @@ class Bits:
             else:
                 # If offset is given then always read into memory.
                 temp = BitStore.frombuffer(m)
+                if offset > len(temp):
+                    raise bitstring.CreationError(f"The offset of {offset} bits is greater than the file length ({len(temp)} bits).")
                 if length is None:
-                    if offset > len(temp):
-                        raise bitstring.CreationError(f"The offset of {offset} bits is greater than the file length ({len(temp)} bits).")
                     self._bitstore = temp.getslice(offset, None)
                 else:
                     self._bitstore = temp.getslice(offset, offset + length)
